@@ -166,8 +166,10 @@ func readFromForeignHolder(v ssa.Value) bool {
 			return false
 		case *ssa.Parameter:
 			return false
+		case *ssa.Alloc:
+			return false // decided by what is stored into the slot
 		}
-		return true // a local variable slot, a free variable, ...
+		return true // a free variable, ...
 	case *ssa.Field:
 		return !holderIsSchema(x.X)
 	case *ssa.Index:
@@ -203,6 +205,36 @@ func readFromForeignHolderTuple(t ssa.Value) bool {
 		return true
 	}
 	return false
+}
+
+func (a *analysis) storedInto(al *ssa.Alloc, seen map[ssa.Value]bool) []root {
+	var out []root
+	var scan func(f *ssa.Function, addr ssa.Value)
+	scan = func(f *ssa.Function, addr ssa.Value) {
+		for _, b := range f.Blocks {
+			for _, in := range b.Instrs {
+				switch x := in.(type) {
+				case *ssa.Store:
+					if x.Addr == addr {
+						out = append(out, a.roots(x.Val, seen)...)
+					}
+				case *ssa.MakeClosure:
+					// the closure sees the variable as a free variable
+					fn := x.Fn.(*ssa.Function)
+					for i, bnd := range x.Bindings {
+						if bnd == addr && i < len(fn.FreeVars) {
+							scan(fn, fn.FreeVars[i])
+						}
+					}
+				}
+			}
+		}
+	}
+	scan(al.Parent(), al)
+	if len(out) == 0 {
+		return []root{{kind: rFresh}}
+	}
+	return out
 }
 
 func (a *analysis) roots0(v ssa.Value, seen map[ssa.Value]bool) []root {
@@ -266,6 +298,11 @@ func (a *analysis) roots0(v ssa.Value, seen map[ssa.Value]bool) []root {
 		return a.roots(x.X, seen)
 	case *ssa.UnOp:
 		if x.Op == token.MUL {
+			if al, ok := x.X.(*ssa.Alloc); ok {
+				// a local variable that lives in memory (captured by a closure, address taken): what a load
+				// yields is what was stored into it (flow-insensitive)
+				return a.storedInto(al, seen)
+			}
 			return a.roots(x.X, seen)
 		}
 		return []root{{kind: rFresh}}
@@ -534,7 +571,15 @@ func main() {
 			}
 			roots = append(roots, f)
 		}
-		res := rta.Analyze(roots, true)
+		// package initialisers run before any task: what they instantiate (e.g. a parser object kept in a
+		// package-level variable) is live for RTA; they are roots of the analysis but not entries of the table
+		rtaRoots := append([]*ssa.Function{}, roots...)
+		for _, p := range prog.AllPackages() {
+			if ini := p.Func("init"); ini != nil {
+				rtaRoots = append(rtaRoots, ini)
+			}
+		}
+		res := rta.Analyze(rtaRoots, true)
 		a := &analysis{prog: prog, cg: res.CallGraph, writes: map[*ssa.Function]map[int]bool{}, returns: map[*ssa.Function]map[int]map[root]bool{}}
 		var fns []*ssa.Function
 		for f := range res.Reachable {
@@ -556,8 +601,12 @@ func main() {
 		// effects
 		globalW := map[*ssa.Function]bool{}
 		metaW := map[*ssa.Function]bool{}
+		isRoot := map[*ssa.Function]bool{}
+		for _, r := range roots {
+			isRoot[r] = true
+		}
 		for _, f := range fns {
-			if !isRepoFn(f) {
+			if !isRepoFn(f) && !isScnFn(f) {
 				continue
 			}
 			if f.Name() == "init" || strings.HasPrefix(f.Name(), "init#") {
@@ -565,6 +614,10 @@ func main() {
 			}
 			a.writesOf(f, func(t ssa.Value, in ssa.Instruction, what string) {
 				for _, r := range a.typedRoots(t) {
+					if r.kind == rParam && isRoot[f] && r.idx < len(f.Params) && metaTyped(f.Params[r.idx].Type()) {
+						// a task body writing through the schema it was handed: that schema is the shared one
+						r = root{kind: rMeta, name: "(the shared module handed to " + f.Name() + ")"}
+					}
 					if r.kind != rGlobal && r.kind != rMeta {
 						continue
 					}
